@@ -250,6 +250,13 @@ def _copy_checked(model, obj, method, ctx, what, w):
                 after[k], list) else repr(after[k]),
             accepted=['%s: %d entries (as before the copy)' % (k, len(before[k]))
                       if isinstance(before[k], list) else repr(before[k])]))
+    cp = out[0] if isinstance(out, tuple) else out
+    if hasattr(cp, 'dsp') and hasattr(model, 'basedir') and \
+            getattr(cp, 'basedir', '<no attribute>') != model.basedir:
+        # further workbooks are loaded relative to it (add_book / loads)
+        ctx.violation('copy-lacks-basedir:%s' % what, dict(
+            w, observed=repr(getattr(cp, 'basedir', '<no attribute>')),
+            accepted=[repr(model.basedir)]))
     return out
 
 
